@@ -155,5 +155,5 @@ Kinds == {"i0", "i", "ibig", "q", "f", "fx", "c", "s0", "s", "l0", "l", "d0", "d
           "n", "st", "fn"}
 \* callees that may be handed an infinite stream (they do not have to consume it)
 NonConsuming == {"take", "first", "second", "third", "tail", "lazy_map", "lazy_filter", "lazy_zip", "type",
-                 "is", "id", "const", "not", "!!", "!?", "uncons", "uncons?", "enumerate", "zip", "then", "=>"}
+                 "is", "id", "const", "not", "!!", "!?", "uncons", "uncons?", "zip", "then", "=>"}
 =============================================================================
